@@ -348,6 +348,37 @@ func keyIDSection(x *h.X) {
 			}
 		}
 	}
+	// an id PLACED in the manager by tink's own factories (Manager.AddKeyWithOpts + WithFixedID, the route of key
+	// derivation and hybrid/subtle; with and without id requirement) is as taken as a drawn one: the entropy that would
+	// produce it again must not hand it out a second time
+	e.load(cCounter)
+	idA, _, err := add(keyset.NewManager())
+	if err != nil {
+		return
+	}
+	tinkParams, _ := aesgcm.NewParameters(aesgcm.ParametersOpts{KeySizeInBytes: 32, IVSizeInBytes: 12, TagSizeInBytes: 16, Variant: aesgcm.VariantTink})
+	reqKey, _ := aesgcm.NewKey(secretdata.NewBytesFromData(bytes.Repeat([]byte{7}, 32), tok), idA, tinkParams)
+	for _, placed := range []struct {
+		name string
+		k    key.Key
+	}{{"key without id requirement", fixedKey}, {"key requiring that id", reqKey}} {
+		for _, status := range []keyset.KeyStatus{keyset.Enabled, keyset.Disabled} {
+			km := keyset.NewManager()
+			if _, err := km.AddKeyWithOpts(placed.k, vb.Tok(), keyset.WithFixedID(idA), keyset.WithStatus(status)); err != nil {
+				continue // refusing a fixed id is the implementation's policy
+			}
+			e.load(cCounter)
+			id, _, err := add(km)
+			x.Eval(1)
+			if err != nil {
+				continue
+			}
+			if id == idA {
+				x.Fail("id-repeats", "%s: manager holding a %s (status %v) placed under id %#x by AddKeyWithOpts(WithFixedID) handed out the same id again", entry, placed.name, status, idA)
+				return
+			}
+		}
+	}
 }
 
 // idSources runs gen on the counter tape and finds, by perturbation, the draws the id depends on.
